@@ -15,9 +15,12 @@ METRICS = ['params_bit', 'ops_bit', 'mpic_latency', 'ne16_latency', 'probe']
 
 @st.composite
 def cases(draw, big=False):
-    costs = draw(st.lists(st.sampled_from(METRICS), min_size=1, max_size=3, unique=True))
+    fam = draw(st.sampled_from(['2d', '2d', '2d', '1d']))
+    # NE16 has no Conv1d model
+    metrics = METRICS if fam == '2d' else [m for m in METRICS if m != 'ne16_latency']
+    costs = draw(st.lists(st.sampled_from(metrics), min_size=1, max_size=3, unique=True))
     ne16 = 'ne16_latency' in costs
-    prof = mu.profile(big)
+    prof = mu.profile(big, family=fam)
     if ne16:
         prof.two_d_k = (1, 3)
     spec = mu.fix_tail(draw(ng.netspecs(prof)))
@@ -91,6 +94,7 @@ def oracle(case) -> Result:
         return torch.tensor(1.0)
     probe = CostSpec(shared=True, default_behavior='zero')
     probe[(nn.Conv2d, None)] = probe_fn
+    probe[(nn.Conv1d, None)] = probe_fn
     probe[(nn.Linear, None)] = probe_fn
 
     def spec_obj(name):
@@ -134,11 +138,11 @@ def oracle(case) -> Result:
         s = summ[name]
         cout = shapes[nid][0]
         bits = _bits(s['w_precision'], cout)
-        k = (n['k'], n['k']) if n['op'] == 'conv2d' else ()
+        k = (n['k'], n['k']) if n['op'] == 'conv2d' else (n['k'],) if n['op'] == 'conv1d' else ()
         layers[nid] = dict(node=n, name=name, bits=bits, in_bits=s['in_precision'],
                            n_in=sum(in_alive[nid]), n_out=sum(1 for b in bits if b != 0),
                            kprod=math.prod(k) if k else 1,
-                           positions=math.prod(shapes[nid][1:]) if n['op'] == 'conv2d' else 1,
+                           positions=math.prod(shapes[nid][1:]) if n['op'] in ng.CONV_OPS else 1,
                            mod=mps.seed.get_submodule(name))
     n0_total = sum(len(L['bits']) - L['n_out'] for L in layers.values())
 
@@ -157,7 +161,7 @@ def oracle(case) -> Result:
             else:
                 cs = getattr(pc, metric)
                 m = L['mod']
-                typ = nn.Conv2d if n['op'] == 'conv2d' else nn.Linear
+                typ = {'conv2d': nn.Conv2d, 'conv1d': nn.Conv1d, 'linear': nn.Linear}[n['op']]
                 fn = cs[(typ, vars(m))]
                 v = 0.0
                 for p in sorted(set(L['bits'])):
@@ -255,7 +259,7 @@ CHECK = Check(
         Part('nets-big', oracle, strategy=cases(big=True),
              budget={'quick': 0, 'thorough': 250}, shards={'quick': 1, 'thorough': 16}),
     ],
-    rule=("Generated 2-D NetSpec networks (C02 grammar); per-layer search with any precision tuple "
+    rule=("Generated 2-D and (1 in 4) 1-D NetSpec networks (C02 grammar); per-layer search with any precision tuple "
           "from {2,4,8}, per-channel search without and with the 0-bit option; cost = 1..3 of "
           "{params_bit, ops_bit, mpic_latency, ne16_latency (8-bit activations, 1x1/3x3), probing "
           "spec} as single spec or dictionary; eval mode or training with hard (non-Gumbel) "
